@@ -1065,11 +1065,11 @@ class Node:
         origin_host, recv_time = waiting
         process_time = time.time() - recv_time
 
-        if origin_host not in self._sent_answers:
-            self._sent_answers[origin_host] = deque(
-                maxlen=self.retransmit_queue_size)
-        
-        self._sent_answers[origin_host].append(message.header.end_to_end_identifier)
+        # one window per origin host, also when two connection threads record
+        # the first answers for an origin at the same time
+        self._sent_answers.setdefault(
+            origin_host, deque(maxlen=self.retransmit_queue_size)).append(
+                message.header.end_to_end_identifier)
 
         peer = self._find_connection_peer(conn)
         if peer:
